@@ -8,6 +8,7 @@ from .. import asmgen
 
 ISA = "x86"
 LEVEL = "exploration"
+NEEDS_MODELS = False
 RULE = (
     "random instruction ASTs (0-4 operands: registers of all GPR widths incl. ah..dh and the rbp/rsp families, xmm/ymm/zmm0-31; "
     "$immediates decimal/hex, negative, up to 64 bit; $symbol; bare identifier as first operand; memory references with all "
